@@ -1,7 +1,7 @@
 (* Soundness of the schedule-case oracles, clause by clause: what `sched_check c = true` (the model
    reproduces the observation step by step) implies for the clauses of rev_ok / progress_ok. *)
 From KB Require Import Model.KeySys Model.C01Cases Model.C02Cases Model.C04Cases.
-From KB Require Import Proofs.RevSys Proofs.KeySys Proofs.KeySysLog.
+From KB Require Import Proofs.RevSys Proofs.KeySys Proofs.KeySysLog Proofs.KeySysChain Proofs.KeySysJust.
 From Coq Require Import ZifyN ZifyNat ZifyBool Lia.
 Local Open Scope N_scope.
 
@@ -101,7 +101,7 @@ Proof.
   intros E F. apply andb_true_iff in E. destruct E as [E1 E2]. inversion F; subst.
   constructor; [|apply IH; assumption].
   unfold resp_ok, header_ok in *.
-  destruct a as [h su|h su kv|h su kv|rv|], b as [h' su' kv'|h' su' kv'|h' su' kv'|rv'|]; simpl in *; try discriminate; auto.
+  destruct a as [h su|h su kv|h su kv|rv|], b as [h' su'|h' su' kv'|h' su' kv'|rv'|]; simpl in *; try discriminate; auto.
   - apply andb_true_iff in E1. destruct E1 as [E1 E3]. apply andb_true_iff in E1. destruct E1 as [E1 _].
     apply N.eqb_eq in E1. subst h'.
     destruct kv as [[v m]|], kv' as [[v' m']|]; simpl in *; try discriminate; auto.
@@ -137,3 +137,153 @@ Proof.
     + constructor; [|exact Rf]. eapply list_eqb_resp_ok; eauto.
 Qed.
 End Sched.
+
+(* ---------- from a valid case to a well-formed initial store ---------- *)
+
+Lemma lookup_In {A} (d : A) k l x : lookup d k l = x -> x = d \/ In (k, x) l.
+Proof.
+  induction l as [|[k' y] l IH]; simpl; [auto|].
+  destruct (N.eqb_spec k' k) as [->|_]; [intros ->; right; left; reflexivity|].
+  intros H. destruct (IH H); auto.
+Qed.
+
+Lemma wf_kstateb_wf d0 ks : wf_kstateb d0 ks = true ->
+  (forall r v, In (r, v) (k_vers ks) -> r <= d0) /\
+  (forall r f, k_idx ks = Some (r, f) ->
+     (exists v, In (r, v) (k_vers ks) /\ (f = true -> v = tombstone)) /\
+     (forall r' v', In (r', v') (k_vers ks) -> r' <= r)).
+Proof.
+  unfold wf_kstateb. intros H. apply andb_true_iff in H. destruct H as [H1 H2]. split.
+  - intros r v Hin. rewrite forallb_forall in H1. specialize (H1 _ Hin). simpl in H1.
+    apply andb_true_iff in H1. destruct H1 as [_ H1]. apply N.leb_le in H1. exact H1.
+  - intros r f Hi. rewrite Hi in H2. destruct (newest (k_vers ks)) as [[r' v]|] eqn:En; [|discriminate].
+    apply andb_true_iff in H2. destruct H2 as [E1 E2]. apply N.eqb_eq in E1. subst r'. split.
+    + exists v. split; [apply newest_In, En|]. intros ->. apply beqb_eq. exact E2.
+    + intros r' v' Hin. eapply newest_max; eauto.
+Qed.
+
+Lemma sched_valid_wf c : sched_valid c -> wf_store (sc_d0 c) (store_of (sc_init c)).
+Proof.
+  intros (_ & _ & F) k. unfold store_of.
+  destruct (lookup_In k_empty k (sc_init c) _ eq_refl) as [E|Hin].
+  - rewrite E. simpl. split; [contradiction|discriminate].
+  - rewrite Forall_forall in F. specialize (F _ Hin). simpl in F. apply wf_kstateb_wf, F.
+Qed.
+
+(* ---------- clauses of progress_ok ---------- *)
+
+Theorem sched_samples_sound c : sched_valid c -> sched_check c = true ->
+  monotone_from (sc_d0 c) (samples c) = true /\
+  forallb (fun x => x <? sc_marker c) (samples c) = true /\
+  sc_stalled c = false /\ (sc_final_committed c =? sc_marker c) = true.
+Proof.
+  intros V H. unfold sched_check in H.
+  destruct (run_steps (sc_cidx0 c) _ _ _ _) as [[sf qf]|] eqn:Er; [|discriminate].
+  pose proof (kinv_init _ _ (sched_valid_wf c V)) as I0.
+  destruct (run_steps_ok _ _ _ _ _ _ _ Er I0 ltac:(simpl; lia)) as (If & Df & Mf & Sf & Rf).
+  repeat (apply andb_true_iff in H; destruct H as [H ?]).
+  apply N.eqb_eq in H2. repeat split.
+  - exact Mf.
+  - unfold samples. apply forallb_forall. intros x Hx. apply in_map_iff in Hx. destruct Hx as [st [<- Hst]].
+    rewrite Forall_forall in Sf. specialize (Sf _ Hst). simpl in Sf. apply N.ltb_lt. lia.
+  - apply negb_true_iff. assumption.
+  - assumption.
+Qed.
+
+(* ---------- the header clause of rev_ok ---------- *)
+
+Lemma emit_resps t i : forall resps ts ts' recs,
+  emit t i ts resps = (ts', recs) -> forall x, In x recs -> In (rr_resp x) resps.
+Proof.
+  induction resps as [|r resps IH]; intros ts ts' recs H x Hx; simpl in H.
+  - injection H as _ <-. contradiction.
+  - destruct (ts_queue ts) as [|q0 queue']; [injection H as _ <-; contradiction|].
+    destruct (emit t i _ resps) as [ts2 recs2] eqn:E. injection H as _ <-.
+    destruct Hx as [<-|Hx]; [left; reflexivity|right; eapply IH; eauto].
+Qed.
+
+Lemma records_resps steps : forall i tss x,
+  In x (records i tss steps) -> exists st, In st steps /\ In (rr_resp x) (st_resps st).
+Proof.
+  induction steps as [|st steps IH]; intros i tss x Hx; simpl in Hx; [contradiction|].
+  match type of Hx with In _ (let '(_, _) := ?e in _) => destruct e as [ts2 recs] eqn:E end.
+  apply in_app_or in Hx. destruct Hx as [Hx|Hx].
+  - exists st. split; [left; reflexivity|]. eapply emit_resps; eauto.
+  - destruct (IH _ _ _ Hx) as [st' [A B]]. exists st'. split; [right; exact A|exact B].
+Qed.
+
+Theorem sched_headers_sound c : sched_valid c -> sched_check c = true ->
+  forallb (fun r => header_ok (rr_resp r)) (case_records c) = true.
+Proof.
+  intros V H. unfold sched_check in H.
+  destruct (run_steps (sc_cidx0 c) _ _ _ _) as [[sf qf]|] eqn:Er; [|discriminate].
+  pose proof (kinv_init _ _ (sched_valid_wf c V)) as I0.
+  destruct (run_steps_ok _ _ _ _ _ _ _ Er I0 ltac:(simpl; lia)) as (_ & _ & _ & _ & Rf).
+  apply forallb_forall. intros x Hx. unfold case_records in Hx.
+  destruct (records_resps _ _ _ _ Hx) as [st [Hst Hin]].
+  rewrite Forall_forall in Rf. specialize (Rf _ Hst). rewrite Forall_forall in Rf. apply (Rf _ Hin).
+Qed.
+
+(* ---------- any step-invariant holds in the state the check ends in ---------- *)
+
+Section Carry.
+Variable cidx0 : bool.
+Variable P : state -> Prop.
+Hypothesis Pstep : forall s l, P s -> P (kstep cidx0 s l).
+
+Lemma run_local_P fuel : forall s t queue acc s' qu ac ls,
+  run_local cidx0 fuel s t queue acc = (s', qu, ac, ls) -> P s -> P s'.
+Proof.
+  induction fuel as [|fuel IH]; intros s t queue acc s' qu ac ls H Ps; simpl in H.
+  - injection H as <- _ _ _. exact Ps.
+  - destruct (rpanic (rs s)); [injection H as <- _ _ _; exact Ps|].
+    destruct (is_engine_pc (thr s t)); [injection H as <- _ _ _; exact Ps|].
+    assert (Hstep : forall l queue0 acc0,
+               (let '(s1, qu1, ac1, ls1) := run_local cidx0 fuel (kstep cidx0 s l) t queue0 acc0 in (s1, qu1, ac1, l :: ls1))
+               = (s', qu, ac, ls) -> P s').
+    { intros l queue0 acc0 E.
+      destruct (run_local cidx0 fuel (kstep cidx0 s l) t queue0 acc0) as [[[s1 qu1] ac1] ls1] eqn:Er.
+      injection E as <- _ _ _. eapply IH; [exact Er|apply Pstep, Ps]. }
+    destruct (thr s t); try (eapply Hstep; exact H).
+    destruct queue as [|q0 queue']; [injection H as <- _ _ _; exact Ps|]. eapply Hstep; exact H.
+Qed.
+
+Lemma run_steps_P steps : forall s queues prev sf qf,
+  run_steps cidx0 s queues prev steps = Some (sf, qf) -> P s -> P sf.
+Proof.
+  induction steps as [|st steps IH]; intros s queues prev sf qf H Ps; simpl in H.
+  - injection H as <- _. exact Ps.
+  - destruct (resume cidx0 s (st_t st) (st_env st) (lookup [] (st_t st) queues)) as [[[s1 qu] resps] ls] eqn:Er.
+    match type of H with (if ?c then _ else _) = _ => destruct c; [|discriminate] end.
+    eapply IH; [exact H|].
+    assert (P1 : P s1).
+    { unfold resume in Er. destruct (is_engine_pc (thr s (st_t st))).
+      - destruct (run_local cidx0 resume_fuel _ _ _ _) as [[[s2 qu2] ac2] ls2] eqn:E2.
+        injection Er as <- _ _ _. eapply run_local_P; [exact E2|apply Pstep, Ps].
+      - eapply run_local_P; eauto. }
+    clear -P1 Pstep. generalize 64%nat. intros n. revert s1 P1.
+    induction n as [|n IHn]; intros s1 P1; simpl; [exact P1|].
+    destruct (enabled s1 LSeqTake); [apply IHn, Pstep, P1|exact P1].
+Qed.
+End Carry.
+
+(* ---------- C01: the observed final dump is the image of a chain of applied commits ---------- *)
+
+Theorem sched_final_dump_chain c : sched_valid c -> sched_check c = true ->
+  exists lg, chain (store_of (sc_init c)) lg /\
+    forall k ks, In (k, ks) (sc_final c) -> kstate_eqb (replay (store_of (sc_init c)) lg k) ks = true.
+Proof.
+  intros V H. unfold sched_check in H.
+  destruct (run_steps (sc_cidx0 c) _ _ _ _) as [[sf qf]|] eqn:Er; [|discriminate].
+  pose proof (sched_valid_wf c V) as W.
+  set (store0 := store_of (sc_init c)) in *.
+  assert (Pf : kinv sf /\ reqinv sf /\ chaininv store0 sf).
+  { apply (run_steps_P (sc_cidx0 c) (fun s => kinv s /\ reqinv s /\ chaininv store0 s)) with (5 := Er).
+    - intros s l (A & B & C). split; [apply kinv_step, A|split; [apply reqinv_step, B|apply chaininv_step; assumption]].
+    - split; [apply kinv_init, W|split; [intros t; exact Logic.I|constructor; simpl; auto]]. }
+  destruct Pf as (_ & _ & [Him Hch]).
+  exists (log sf). split; [exact Hch|].
+  intros k ks Hin. rewrite <- Him.
+  repeat (apply andb_true_iff in H; destruct H as [H ?]).
+  rewrite forallb_forall in H5. apply (H5 (k, ks) Hin).
+Qed.
